@@ -501,9 +501,12 @@ def import_dobs_string(content, full_output=False, separator_insertion=True):
             _check(False)
     names = list(set(names))
 
+    maskd = {}
     for name in names:
+        maskd[name] = []
         for i in range(len(deltad[name])):
             tmp = np.zeros_like(deltad[name][i])
+            maskd[name].append(np.asarray(deltad[name][i]) != 0.)
             for j in range(len(deltad[name][i])):
                 if deltad[name][i][j] != 0.:
                     tmp[j] = deltad[name][i][j] + mean[i]
@@ -521,7 +524,7 @@ def import_dobs_string(content, full_output=False, separator_insertion=True):
             repdeltas = []
             repidl = []
             for j in range(len(deltad[name][i])):
-                if deltad[name][i][j] != 0.:
+                if maskd[name][i][j]:
                     repdeltas.append(deltad[name][i][j])
                     repidl.append(idld[name][j])
             if len(repdeltas) > 0:
